@@ -650,6 +650,48 @@ def tolerance_cases(rng, reps=1):
     return cases
 
 
+def inexact_steps(dt, kmax):
+    """the whole numbers of steps k <= kmax whose delay k*dt, divided by dt in floating point, is NOT k again (above or below)"""
+    return [k for k in range(1, kmax + 1) if float(k * dt) / dt != k]
+
+
+def floatgrid_cases(rng, reps=1):
+    """EXACT multiples of a non-representable step time with the DEFAULT interpolation tolerance (0): the step time is drawn
+    from the hundredths in [0.05, 3] that have, within 12 steps, a whole number of steps k whose delay k*dt (the float
+    product — what `k * dt` stores) does not divide back to k in floating point (the quotient lands a rounding error above or
+    below k; about two thirds of the non-dyadic step times have one).  Such a k — as the longest supported delay or one or two
+    below it — is given to about half the synapses, the others draw from 0..K.  Every delay is k steps exactly as far as the
+    property is concerned (k*dt IS the grid point): pure k-step shift, both interpolation modes (mostly `previous`, where a
+    read that is treated as lying between two grid points returns another observation), a clear mid-run for some."""
+    cases = []
+    j = 0
+    for _ in range(reps):
+        for conn in CONNS:
+            for syn in SYN:
+                for mode in "PP" if conn != "conv" else "P":
+                    j += 1
+                    dt, ks = 0.1, [3, 6, 12]
+                    for _try in range(50):
+                        cand = rng.randint(5, 300) / 100
+                        if float(cand * 64).is_integer():
+                            continue
+                        kk = inexact_steps(cand, 12)
+                        if kk and (j % 3 == 0 or any(float(k * cand) / cand > k for k in kk)):
+                            dt, ks = cand, kk
+                            break
+                    up = [k for k in ks if float(k * dt) / dt > k]
+                    kstar = rng.choice(up if up and j % 3 else ks)
+                    K = kstar + rng.choice([0, 0, 1, 2])
+                    c = make_case(rng, conn, syn, dt, K, "heterogeneous", K + rng.choice([3, 4, 6]), tol=0.0,
+                                  clear=rng.choice([None, None, None, 2]), batch=1 if conn == "conv" else None)
+                    c["mode"] = mode if j % 4 else "N"
+                    c["D"] = [float((kstar if rng.random() < 0.5 else rng.randint(0, K)) * dt) for _ in c["D"]]
+                    c["D"][rng.randrange(len(c["D"]))] = float(kstar * dt)
+                    c["delaykind"] = "heterogeneous+inexact-float-quotient"
+                    cases.append(c)
+    return cases
+
+
 def maxdelay_cases(rng, T, reps=1):
     """the supported MAXIMUM delay of a connection that is already running is re-assigned (`connection.synapse.delay = ...`: grown
     to make room for longer learned delays, shrunk, or re-assigned to a value with the same record size) once or twice, at steps
@@ -721,6 +763,8 @@ def gen_cases(rng, thorough):
                                rng.choice([6, 10, 16]) if not thorough else rng.choice([10, 20, 30]),
                                over_none=rng.random() < 0.3, tol=rng.choice([0.0, 0.0, 0.0625]), setter=rng.random() < 0.25,
                                clear=rng.choice([None, None, 2, 5]), reassign=rng.choice([None, None, None, 3])))
+    # exact multiples of non-representable step times whose float quotient by dt is not whole, default tolerance 0 (drawn last: the earlier streams keep their draws)
+    cases += floatgrid_cases(rng, reps=1 if not thorough else 4)
     return cases
 
 
@@ -867,7 +911,9 @@ def explore(ctx) -> Exploration:
                "(Connection.dt / Synapse.dt / Synapse.delay; size-preserving 1->7/8, 1->3/4, 1->1.3, 2.5dt<->3dt and size-changing), cleared, "
                "run against a twin built directly with the final values; tolerance stream: every pair x both interpolation modes with a non-representable dt "
                "in {1.3, 0.7, 0.1, 1.1, 0.3}, max delay 6..12 steps, interp_tol in {1e-5, 1e-3, dt/8} and delays within the tolerance of k*dt "
-               "(float product, float32-rounded, +/- a fraction of the tolerance) = exact k-step shifts; max-delay stream: every pair, the "
+               "(float product, float32-rounded, +/- a fraction of the tolerance) = exact k-step shifts; float-grid stream: every pair with the DEFAULT "
+               "tolerance 0, a non-representable dt drawn from the hundredths in [0.05, 3] and delays k*dt (k <= 14) whose floating-point quotient "
+               "by dt is not a whole number (a rounding error above or below k) = exact k-step shifts; max-delay stream: every pair, the "
                "supported maximum re-assigned through Synapse.delay once or twice WHILE RUNNING (grow / shrink, any pointer position, new "
                "delays up to the new maximum), judged against two undelayed twins (history reset at the change / carried over faithfully: "
                "the run must agree with one of them throughout); random extras with dt in {1/4, 1/2, 1, 2}; every case is stepped on the delayed connection "
